@@ -142,7 +142,7 @@ def build_c(q):
         raise ToolError('prep_ir: ' + r['err'][-800:])
     preplog = r['err']
     must([OPT, '-S', '-internalize', '-internalize-public-api-list=' + ','.join(api), '-globaldce', 'prep.ll', '-o', 'int.ll'], 'opt internalize', cwd=wd)
-    must([OPT, '-S', '-O1', '-vectorize-loops=false', '-vectorize-slp=false', 'int.ll', '-o', 'o1.ll'], 'opt -O1', cwd=wd)
+    must([OPT, '-S', '-O1', '-vectorize-loops=false', '-vectorize-slp=false'] + list(ob.get('opt_flags', [])) + ['int.ll', '-o', 'o1.ll'], 'opt -O1', cwd=wd)
     must([OPT, '-S', '-internalize', '-internalize-public-api-list=' + ','.join(api), '-globaldce', '-strip-debug', '-loop-simplify', 'o1.ll', '-o', 'min.ll'], 'opt finalize', cwd=wd)
     cmd = ['python3', os.path.join(ENGINE, 'ir2c.py'), 'min.ll', '-o', 'q.c', '--root', entry, '--ctors', '--stub-virtual-dtors', '--list', 'functions.txt']
     for m in ['cxx'] + list(ob.get('models', [])):
